@@ -19,7 +19,7 @@ From Coq Require Import List NArith ZArith.
 From Coq.Strings Require Import Byte.
 From SP Require Import Bytes Params Msgpack Crypto Errors Packets Chunker Rand Verify Encrypt Decrypt
      SignAuthProofs EncryptProofs EncAuthProofs EncAuthLocated.
-From SP Require Import Nonce GoLang GoAst GoAstProofs GoAstProofs2.
+From SP Require Import Nonce GoLang GoLang2 GoAst GoAstProofs GoAstProofs2 GoAstProofs3 GoAstProofs4b.
 From Coq Require String.
 Import String.StringSyntax.
 Import ListNotations.
@@ -130,6 +130,30 @@ Proof.
   split; [apply (go_nonceForMACKeyBoxV2 c hh eph i); [apply (PeanoNat.Nat.le_trans _ 24); [repeat constructor|exact Hh]|exact Hi]|exact (go_nonceForMACKeyBoxV1 c hh Hh)].
 Qed.
 
+(* SOURCE TIE (per-packet glue): the translated decryptStream.getNextChunk of /repo, run on a receiver object
+   holding the unconsumed input BYTES and Go's packet counter, returns exactly what one step of the model's
+   receive loop says and leaves the stream advanced — for ALL inputs.  `C02_source_decrypt_loop_is_step` shows the model's
+   loop is that step followed by the end-of-stream check or the next iteration. *)
+Theorem C02_source_decrypt_getNextChunk (c : crypto) (st : dec_state) (n : N) (input : bytes) :
+  (vmaj (ds_version st) = 1 \/ vmaj (ds_version st) = 2)%Z ->
+  (n < 18446744073709551616)%N ->
+  chunk_spec "ds" g_chunk_nil (fun rest => g_ds st (g_mps rest (n + 1)))
+             (dec_step c st n input)
+             (run_func2 (ext_chunk c TBytes) f_saltpack_decryptStream_getNextChunk [g_ds st (g_mps input n)]).
+Proof. exact (go_decrypt_getNextChunk c st n input). Qed.
+
+Theorem C02_source_decrypt_loop_is_step (c : crypto) (fuel : nat) (st : dec_state) (n : N) (input : bytes) (acc : list bytes) :
+  decrypt_loop c (S fuel) st n input acc =
+  match dec_step c st n input with
+  | Err e => mkOut (rev_append acc []) e
+  | Ok (chunk, final, rest) =>
+    if final then mkOut (rev_append (chunk :: acc) []) (assert_end_of_stream rest)
+    else decrypt_loop c fuel st (n + 1) rest (chunk :: acc)
+  end.
+Proof. exact (decrypt_loop_dec_step c fuel st n input acc). Qed.
+
+Print Assumptions C02_source_decrypt_getNextChunk.
+Print Assumptions C02_source_decrypt_loop_is_step.
 Print Assumptions C02_source_decrypt_processBlock.
 Print Assumptions C02_source_loop_uses_step.
 Print Assumptions C02_source_computePayloadHash.
